@@ -27,6 +27,7 @@ SPECS = {
     "C10": [("c10_send_side_limit", "c10m")],
     "C11": [("c11_static_table_lookups", "c11m")],
     "C12": [("c12_message_gates", "c12")],
+    "C17": [("c17_quinn_adapter", "c17")],
     "C19": [("c19_uni_stream_header", "c19m"), ("c04_uni_stream_classification", "c04b")],
 }
 
@@ -56,8 +57,35 @@ def build_replay(log_dir):
     return p.returncode == 0
 
 
+QUINN_REPLAY_DIR = os.path.join(VERIF, "replay_quinn")
+QUINN_REPLAY_BIN = os.path.join(VERIF, ".build", "replay_quinn", "debug", "h3-verif-replay-quinn")
+
+
+def build_replay_quinn(log_dir):
+    """The scenarios that need live quinn objects (C17) live in their own crate: two quinn endpoints over loopback."""
+    env = dict(os.environ)
+    env["CARGO_NET_OFFLINE"] = "true"
+    env.pop("RUSTUP_TOOLCHAIN", None)
+    env.pop("RUSTFLAGS", None)
+    lock = os.path.join(QUINN_REPLAY_DIR, "Cargo.lock")
+    if not os.path.exists(lock) and os.path.exists("/repo/Cargo.lock"):
+        import shutil
+        shutil.copyfile("/repo/Cargo.lock", lock)
+    p = subprocess.run(["cargo", "build", "--offline", "--target-dir", os.path.join(VERIF, ".build", "replay_quinn")],
+                       cwd=QUINN_REPLAY_DIR, env=env, capture_output=True, text=True, timeout=1800)
+    os.makedirs(log_dir, exist_ok=True)
+    open(os.path.join(log_dir, "replay_quinn_build.log"), "w").write(p.stdout + p.stderr)
+    return p.returncode == 0
+
+
 def native_replay(scenario, args, log_dir):
     """Run the native replay binary (rebuilt from /repo's current tree). Returns (reproduced: bool|None, output)."""
+    if scenario.startswith("c17_"):
+        if not build_replay_quinn(log_dir):
+            return None, "quinn replay crate does not build, see " + os.path.join(log_dir, "replay_quinn_build.log")
+        p = subprocess.run([QUINN_REPLAY_BIN, scenario] + list(args), capture_output=True, text=True, timeout=300)
+        out = (p.stdout + p.stderr).strip()
+        return (True if p.returncode == 1 else False if p.returncode == 0 else None), out
     if not build_replay(log_dir):
         return None, "replay crate does not build, see " + os.path.join(log_dir, "replay_build.log")
     p = subprocess.run([REPLAY_BIN, scenario] + list(args), capture_output=True, text=True, timeout=300)
